@@ -93,11 +93,12 @@ func c09Catalogue(t *sim.T, m *gen.StaticModel, tb *gen.Table, variant int) []in
 			}
 		}
 		if variant%3 == 2 {
-			// a near miss of an id that does exist: padded, other case, other leading zeros
+			// a near miss of an id that does exist: other case, other leading zeros, a trailing NUL (no white space at
+			// the edges: whether the parser trims cells is not this property's business)
 			pools := map[string][]string{"noagency": m.AgencyIDs, "noroute": m.RouteIDs, "nostop": m.StopIDs, "nosvc": m.ServiceIDs, "notrip": m.TripIDs}
 			if ids := pools[p]; len(ids) > 0 {
 				old := ids[variant%len(ids)]
-				nm := []string{old + " ", " " + old, strings.ToUpper(old), "0" + old, "00" + old, old + ".0", old + "\u00a0"}[(variant/3)%7]
+				nm := []string{strings.ToUpper(old), "0" + old, "00" + old, old + ".0", old + "\x00", strings.ToLower(old), old + "_"}[(variant/3)%7]
 				exists := false
 				for _, id := range ids {
 					if id == nm {
